@@ -44,7 +44,58 @@ def collect(h):
         raise h.Missing(f"{rel}: CompareAndDelete neither drops the cache entry nor caches the absence; update C07_Cache/Model.v")
     items.append(("cache_delete_leaves_marker", "bool", "true" if marker else "false", rel + " CompareAndDelete: cache update after a successful delete"))
     items += big_values(h, rel)
+    items.append(provider_handles(h, rel))
+    items.append(write_errors(h, rel))
     return items
+
+
+def provider_handles(h, rel):
+    """does the caching provider hand out ONE caching storage per app (looked up in a map under its mutex) or
+    build a new cache on every AppStorage call (the code before the repair of C07-HANDLES)"""
+    body = h.func_body(rel, r"^func \(asp \*implCachingAppStorageProvider\) AppStorage\(", "caching provider AppStorage")
+    if "newCachingAppStorage(" not in body:
+        raise h.Missing(f"{rel}: the caching provider no longer builds its storages in AppStorage; update C07_Cache/Model.v")
+    memo = re.search(r"if cached, ok := asp\.storages\[appQName\]; ok \{\s*return cached, nil\s*\}", body) \
+        and re.search(r"asp\.storages\[appQName\] = cached", body) and re.search(r"asp\.mu\.Lock\(\)\s*defer asp\.mu\.Unlock\(\)", body)
+    if memo:
+        return ("cache_provider_one_per_app", "bool", "true", rel + " AppStorage: one caching storage per app")
+    if "storages" not in body:
+        return ("cache_provider_one_per_app", "bool", "false", rel + " AppStorage: a new cache on every call")
+    raise h.Missing(f"{rel}: cannot tell whether AppStorage returns one caching storage per app; update C07_Cache/Model.v")
+
+
+def write_errors(h, rel):
+    """does a write whose storage call returned an error mark its keys (the storage may have applied it) or
+    leave the cache as it was (the code before the repair of C07-WRITEERR)"""
+    s = h.src(rel)
+    writers = {
+        "Put": r"^func \(s \*cachedAppStorage\) Put\(",
+        "PutBatch": r"^func \(s \*cachedAppStorage\) PutBatch\(",
+        "InsertIfNotExists": r"^func \(s \*cachedAppStorage\) InsertIfNotExists\(",
+        "CompareAndSwap": r"^func \(s \*cachedAppStorage\) CompareAndSwap\(",
+        "CompareAndDelete": r"^func \(s \*cachedAppStorage\) CompareAndDelete\(",
+    }
+    shapes = {
+        "Put": r"\} else \{\s*s\.markUnknown\(makeKey\(pKey, cCols\)\)\s*\}",
+        "PutBatch": r"\} else \{\s*for _, i := range items \{\s*s\.markUnknown\(makeKey\(i\.PKey, i\.CCols\)\)\s*\}\s*\}",
+        "InsertIfNotExists": r"if err != nil \{\s*s\.markUnknown\(makeKey\(pKey, cCols\)\)\s*return false, err\s*\}",
+        "CompareAndSwap": r"if err != nil \{\s*s\.markUnknown\(makeKey\(pKey, cCols\)\)\s*return false, err\s*\}",
+        "CompareAndDelete": r"if err != nil \{\s*s\.markUnknown\(makeKey\(pKey, cCols\)\)\s*return false, err\s*\}",
+    }
+    n = 0
+    for name, pat in writers.items():
+        body = h.func_body(rel, pat, "cache " + name)
+        if re.search(shapes[name], body):
+            n += 1
+        elif "markUnknown" in body:
+            raise h.Missing(f"{rel}: {name}: unrecognised use of markUnknown; update C07_Cache/Model.v")
+    if n == 0 and "markUnknown" not in s:
+        return ("cache_write_error_marks", "bool", "false", rel + " a failed write leaves the cache as it was")
+    if n == len(writers):
+        body = h.func_body(rel, r"^func \(s \*cachedAppStorage\) markUnknown\(", "markUnknown")
+        if re.fullmatch(r"\s*s\.cacheMu\.Lock\(\)\s*if cacheableKey\(key\) \{\s*s\.cache\.Set\(key, uncacheable\)\s*\}\s*s\.cacheMu\.Unlock\(\)\s*", body):
+            return ("cache_write_error_marks", "bool", "true", rel + " a failed write marks its keys (markUnknown in Put, PutBatch, InsertIfNotExists, CompareAndSwap, CompareAndDelete)")
+    raise h.Missing(f"{rel}: failed writes are handled inconsistently ({n} of {len(writers)} writers mark their keys); update C07_Cache/Model.v")
 
 
 def fastcache_chunk_size(h):
